@@ -252,7 +252,9 @@ def witness_created_parent_is_empty(prog, fn: ast.AST) -> bool:
     eb = defs[0].targets[0].id
     from sa.util import Aliases
     al = Aliases(fn)
-    calls = [n for n in cfg.nodes if n.ast is not None and n.kind in ("stmt", "test") and f"_assign_through_identifier({eb}.value)" in al.norm(n.ast)]
+    calls = [n for n in cfg.nodes if n.ast is not None and n.kind in ("stmt", "test") and any(
+        isinstance(c, ast.Call) and callee(c) == "_assign_through_identifier" and any(al.norm(a) == f"{eb}.value" for a in c.args)
+        for c in ast.walk(n.ast))]  # closure `f(ref)` or module-level `f(owner, ref, value)`
     if not calls:
         return False
 
@@ -325,6 +327,10 @@ INFEASIBLE_PAIRS = [
      "assign-through needs an existing binding in the parent; a created parent is empty", witness_created_parent_is_empty),
     ("_set_value_in_attrset", "_resolve_npath_parent($1, $2, create_missing=True)", "$1.value = $2",
      "assign-through needs an existing binding in the parent; a created parent is empty", witness_created_parent_is_empty),
+    ("_set_value_in_attrset", "($1, $2) = _resolve_npath_parent($3, $4, create_missing=True)", "_assign_through_identifier(",
+     "the same arm when the helper is a module-level function: the refusal surfaces at its call", witness_created_parent_is_empty),
+    ("_set_value_in_attrset", "_resolve_npath_parent($1, $2, create_missing=True)", "_assign_through_identifier(",
+     "the same arm when the helper is a module-level function: the refusal surfaces at its call", witness_created_parent_is_empty),
     ("_set_value_in_attrset", "($1, $2) = _resolve_npath_parent($3, $4, create_missing=True)", "raise ValueError(f'Cannot overwrite inherited attribute",
      "the refusal needs an Inherit entry in the parent; a created parent is an empty set", witness_created_parent_has_no_inherit),
     ("_set_value_in_attrset", "_resolve_npath_parent($1, $2, create_missing=True)", "raise ValueError(f'Cannot overwrite inherited attribute",
